@@ -237,6 +237,25 @@ static void m7(void) {
     check_thread(1, 2);
     VS_CHECK(ga.live_blocks == 0, "leak", "%llu allocation(s) still live", (unsigned long long)ga.live_blocks);
 }
+/* M7c: three threads inside join-all at the same time (main and two helpers) */
+static void m7c(void) {
+    setup();
+    pthread_mutex_lock(&hm);
+    m_launch(0);
+    m_launch(1);
+    pthread_t j1, j2;
+    pthread_create(&j1, NULL, m7_joiner, NULL);
+    pthread_create(&j2, NULL, m7_joiner, NULL);
+    pthread_mutex_unlock(&hm);
+    VS_CHECK(aws_thread_join_all_managed() == AWS_OP_SUCCESS, "join-all-result", "join_all failed");
+    pthread_join(j1, NULL);
+    pthread_join(j2, NULL);
+    VS_CHECK(aws_thread_get_managed_thread_count() == 0, "managed-count", "managed thread count is %zu after all join_all calls returned", aws_thread_get_managed_thread_count());
+    VS_CHECK(vs_threads_unfinished() == 0, "managed-not-finished", "threads still running after join_all");
+    check_thread(0, 1);
+    check_thread(1, 2);
+    VS_CHECK(ga.live_blocks == 0, "leak", "%llu allocation(s) still live", (unsigned long long)ga.live_blocks);
+}
 /* J1: joinable thread with at-exit callbacks */
 static int j1_n = 2;
 static void j1(void) {
@@ -343,6 +362,7 @@ int main(int argc, char **argv) {
         {.name = "M6-join-timeout-then-join-all", .run = m6, .bound_quick = 2, .bound_thorough = 3},
         {.name = "M8-timeout-reinit-then-join-all", .run = m8, .bound_quick = 3, .bound_thorough = 4},
         {.name = "M9-create-refused-while-join-all-waits", .run = m9, .bound_quick = 2, .bound_thorough = 3},
+        {.name = "M7c-three-join-all-callers", .run = m7c, .bound_quick = 1, .bound_thorough = 2},
         {.name = "M7-two-join-all-callers", .run = m7, .bound_quick = 2, .bound_thorough = 3},
         {.name = "J1-joinable-at-exit", .run = j1, .bound_quick = 3, .bound_thorough = 5},
         {.name = "J3-refused-self-join-then-join", .run = j3, .bound_quick = 3, .bound_thorough = 5},
